@@ -106,7 +106,8 @@ def one_case(case):
     json.dump({'chunks': [[case['delays'][i], c] for i, c in enumerate(chunks)], 'status': status,
                'stdout': [[0, 'first'], [len(chunks), 'last']], 'linger': case['linger'], 'close_err': case.get('close_err', False), 'enc': enc}, open(sched, 'w'))
     obs = {}
-    rc, out, err = run_tool(['-l', logf], b'quit\n')
+    opts = list(case.get('opts', []))
+    rc, out, err = run_tool(opts + ['-l', logf], b'quit\n')
     obs['file'] = (rc, out, err)
 
     def feeder(stdin):
@@ -123,9 +124,9 @@ def one_case(case):
                 stdin.close()
             except Exception:
                 pass
-    rc, out, err = run_tool(['-p'], feeder=feeder)
+    rc, out, err = run_tool(opts + ['-p'], feeder=feeder)
     obs['pipe'] = (rc, out, err)
-    rc, out, err = run_tool(['-r', PY, CHILD, sched] + extra, b'resume\n')
+    rc, out, err = run_tool(opts + ['-r', PY, CHILD, sched] + extra, b'resume\n')
     obs['run'] = (rc, out, err)
     return obs
 
@@ -160,7 +161,9 @@ def run(ctx):
                 if e['in']['e'] == 'junk':
                     e['in']['text'] = lines[i].strip()
             text = '\n'.join(lines) + ('\n' if k % 3 else '')
-            s['init'] = dict(sessbase.NOFILTER)
+            # every third stream is shown with --supress (in all three modes): chatter is then left out
+            sup = k % 3 == 2
+            s['init'] = dict(sessbase.NOFILTER, show=not sup)
             ref = copy.deepcopy(s)
             ref['events'].append({'in': {'e': 'eof'}})
             e1.run(ref, render=render)
@@ -170,7 +173,8 @@ def run(ctx):
                     n = len(cases)
                     cases.append({'tmp': tmp, 'n': n, 'lines': lines, 'chunks': chunks, 'status': statuses[n % len(statuses)],
                                   'extra': EXTRA[n % len(EXTRA)], 'delays': [0 if fast else r.choice([0, 0.03]) for _ in chunks],
-                                  'linger': 0 if n % 2 else 0.05, 'want': want, 'session': k})
+                                  'linger': 0 if n % 2 else 0.05, 'want': want, 'session': k, 'opts': ['--supress'] if sup else [],
+                                  'chatter': [lines[i] for i, e in enumerate(s['events']) if e['in']['e'] == 'junk']})
         # the writer schedules of the model (RunMode!ChildWrite: every composition of the 6 abstract bytes of streams A / B),
         # executed for real: abstract bytes are the two halves of line 1, its newline, the two halves of line 2, its newline
         res = tlc.run_tlc('RunSchedules.tla', cfg='RunSchedules.cfg', workers=1)
@@ -232,7 +236,7 @@ def run(ctx):
         for case, obs in zip(cases, results):
             rep.case(json.dumps([case['chunks'], case['status'], case['extra']]))
             rp = {'kind': 'modes', 'chunks': case['chunks'], 'status': case['status'], 'extra': case['extra'], 'delays': case['delays'], 'want': case['want'],
-                  'linger': case['linger'], 'close_err': case.get('close_err', False), 'enc': case.get('enc', 'utf-8')}
+                  'linger': case['linger'], 'close_err': case.get('close_err', False), 'enc': case.get('enc', 'utf-8'), 'opts': case.get('opts', [])}
             shown = {}
             for mode in ('file', 'pipe', 'run'):
                 rc, out, err = obs[mode]
@@ -267,6 +271,11 @@ def run(ctx):
             # (one byte per line is enough for TLC: what matters is which lines exist and whether the last one is terminated)
             stream = []
             parts = text.split('\n')
+            if case.get('opts') == ['--supress']:
+                # chatter is left out of the display: the lines that count are the message lines
+                chatter = set(case.get('chatter', []))
+                parts = [l for l in parts[:-1] if l not in chatter] + ['' if parts[-1] in chatter else parts[-1]]
+                text = '\n'.join(parts)
             for i, l in enumerate(parts):
                 if l != '':
                     stream.append(i + 1)
@@ -311,7 +320,7 @@ def replay(ctx, data):
     tmp = tempfile.mkdtemp(prefix='c13r-', dir=os.path.join(tlc.OUT, 'tmp'))
     try:
         case = {'tmp': tmp, 'n': 0, 'lines': [], 'chunks': data['chunks'], 'status': data['status'], 'extra': data['extra'],
-                'delays': data['delays'], 'linger': data.get('linger', 0), 'close_err': data.get('close_err', False), 'enc': data.get('enc', 'utf-8')}
+                'delays': data['delays'], 'linger': data.get('linger', 0), 'close_err': data.get('close_err', False), 'enc': data.get('enc', 'utf-8'), 'opts': data.get('opts', [])}
         obs = one_case(case)
         for mode in ('file', 'pipe', 'run'):
             rc, out, err = obs[mode]
